@@ -6,7 +6,8 @@ import ast
 from ..cfg import CFG
 from ..loops import dotted
 from ..nf import NF, Scope, Poly, parse_expr
-from ..repo import Repo, loc, short, AnalysisError, positional_params, param_names
+from ..repo import Repo, loc, short, AnalysisError, positional_params, param_names, bind_call
+from ..sem import guard_literals, spec, on_every_path_once, stmt_calls, arg_of
 
 EXPLANATION = (
     "The checker decides the premises of the ring-buffer induction for ReplayBuffer.add_sample (inherited by LAP / PrioritizedReplayBuffer): "
@@ -25,7 +26,7 @@ RULES = {
     "R2-one-index-vector": "every sample_batch gathers all fields with the same index vector inside one comprehension over self.buffer",
     "R3-index-bound": "the index vector is drawn from [0, current_len): rng.integers(0, self.current_len, ...) or a priority sampler that is given self.current_len and slices with it",
     "R4-allocation": "storage is allocated only under current_len == 0, with (buffer_size,) + value shape and the configured dtype",
-    "R5-task-routing": "MultiTaskReplayBuffer: add -> buffers[selected_task] and active_buffers.add(selected_task); sample -> one buffer among active_buffers; select_task validates; update_priority goes to the sampled task",
+    "R5-task-routing": "MultiTaskReplayBuffer: add -> buffers[selected_task] and active_buffers.add(selected_task); sample -> one buffer among active_buffers; select_task validates (the routing of priority updates is decided under C08)",
     "R6-length": "__len__ returns current_len (sum over tasks for the multi-task buffer)",
 }
 
@@ -64,30 +65,57 @@ def ring_law(ck, repo, nf, cq, rule_prefix="R1-ring-law", allow_extra=False):
     return fn, mi, cfg, site, sc, stores, adv, lens, allocs
 
 
-def run(ck, repo: Repo, tier: str):
-    nf = NF(repo, inline_depth=1, inline_calls=False)
+def _ring(ck, repo, nf):
     cq = RB + "ReplayBuffer"
     fn, mi, cfg, site, sc, stores, adv, lens, allocs = ring_law(ck, repo, nf, cq)
     where = loc(mi, fn)
+    kwarg = fn.args.kwarg.arg if fn.args.kwarg else None
+    ck.need(kwarg is not None, f"{site}: the transition is not passed as keyword fields (unrecognised idiom)")
     ck.ob("R1-ring-law", site, "single-advance", len(adv) == 1, f"{len(adv)} assignment(s) to insert_idx", "" if len(adv) == 1 else "the write position must advance exactly once per addition", where)
     ck.ob("R1-ring-law", site, "single-length-update", len(lens) == 1, f"{len(lens)} assignment(s) to current_len", "" if len(lens) == 1 else "the length must be updated exactly once per addition", where)
+    # stores through an alias of the storage arrays (positional pairing) are looked for explicitly
+    alias_stores = []
+    for n in cfg.nodes:
+        s_ = n.ast
+        if n.kind == "stmt" and isinstance(s_, ast.Assign) and isinstance(s_.targets[0], ast.Subscript) and isinstance(s_.targets[0].value, ast.Name):
+            for d in cfg.defs_of(n.id, s_.targets[0].value.id):
+                if d.kind == "for" and d.value is not None and "self.buffer" in ast.unparse(d.value):
+                    alias_stores.append((n, d))
+    for n, d in alias_stores:
+        ck.ob("R1-ring-law", site, "store-by-key", False, f"`{short(n.ast, 60)}` with `{short(d.value, 60)}`",
+              "the storage array is chosen by *position* in the iteration, not by the field name of the value: keyword arguments in another order land in the wrong field", loc(mi, n.ast))
     if len(adv) == 1:
         a = adv[0]
         v = nf.poly(a.ast.value, sc, a.id).canon() if isinstance(a.ast, ast.Assign) else "?"
         ok = v == "mod(1 + self.insert_idx, self.buffer_size)" and not cfg.control_deps(a.id)
         ck.ob("R1-ring-law", site, "advance-mod-capacity", ok, f"insert_idx' = {v}", "" if ok else "must be (insert_idx + 1) % buffer_size, unconditionally", loc(mi, a.ast))
         for n, t in stores:
-            idx = nf.poly(t.slice, sc, n.id).canon()
+            idx = nf.poly(t.slice, Scope(None, mi, {}, site), None).canon()
             before = cfg.paths_avoiding(a.id, n.id, set()) is None
             ok = idx == "self.insert_idx" and before
             ck.ob("R1-ring-law", site, f"store-at-insert-idx:{short(t.value.slice, 20)}", ok, f"`{short(n.ast, 60)}`",
                   "" if ok else ("the field is stored at a different index than the write position" if idx != "self.insert_idx" else "the store happens after the write position advanced: the transition is split over two slots"), loc(mi, n.ast))
-    ck.ob("R1-ring-law", site, "stores-every-provided-field", len(stores) == 1 and isinstance(getattr(stores[0][0].ast, "_parent", None), ast.For) and ast.unparse(stores[0][0].ast._parent.iter) == "sample.items()"
-          and ast.unparse(stores[0][1].value.slice) == "k" and ast.unparse(stores[0][0].ast.value) == "v",
-          f"{[short(n.ast, 50) for n, _ in stores]}", "" if len(stores) == 1 else "expected `for k, v in sample.items(): self.buffer[k][self.insert_idx] = v`", where)
+    # every provided field is stored under its own name
+    n_named = 0
+    for n, t in stores:
+        kexpr, vexpr = t.value.slice, n.ast.value
+        okk = False
+        if isinstance(kexpr, ast.Name) and isinstance(vexpr, ast.Name):
+            dk, dv = cfg.defs_of(n.id, kexpr.id), cfg.defs_of(n.id, vexpr.id)
+            if len(dk) == 1 and len(dv) == 1 and dk[0].kind == "for" and dv[0].kind == "for" and dk[0].node == dv[0].node and dk[0].path == (0,) and dv[0].path == (1,) \
+                    and isinstance(dk[0].value, ast.Call) and isinstance(dk[0].value.func, ast.Attribute) and dk[0].value.func.attr == "items" and dotted(dk[0].value.func.value) == kwarg:
+                okk = True
+        if isinstance(vexpr, ast.Subscript) and dotted(vexpr.value) == kwarg and ast.dump(vexpr.slice) == ast.dump(kexpr):
+            okk = True
+        n_named += int(okk)
+        if not okk:
+            raise AnalysisError(f"{site}: store `{short(n.ast, 60)}` pairs storage and value in a way this check does not recognise")
+    if not alias_stores:
+        ck.ob("R1-ring-law", site, "stores-every-provided-field", n_named >= 1, f"{[short(n.ast, 50) for n, _ in stores]}", "" if n_named else "the transition is never written into the storage", where)
     if len(lens) == 1:
         l = lens[0]
         v = nf.poly(l.ast.value, sc, l.id).canon() if isinstance(l.ast, ast.Assign) else "?"
+        # the length update may read insert_idx only if that is provably the pre-advance value; the canonical form does not read it at all
         ok = v == "min(1 + self.current_len, self.buffer_size)" and not cfg.control_deps(l.id)
         ck.ob("R1-ring-law", site, "length-saturates", ok, f"current_len' = {v}", "" if ok else "must be min(current_len + 1, buffer_size), unconditionally", loc(mi, l.ast))
     # R4 allocation (directly in add_sample, or in a helper method called from it)
@@ -105,120 +133,292 @@ def run(ck, repo: Repo, tier: str):
                             alloc_ctx.append((hcfg, m, m.ast, n))
     ck.need(len(alloc_ctx) >= 1, f"{site}: storage allocation not found (unrecognised idiom)")
     ck.ob("R4-allocation", site, "single-allocation", len(alloc_ctx) == 1, f"{len(alloc_ctx)} allocation statement(s)", "" if len(alloc_ctx) == 1 else "storage must be allocated in one place", where)
+    EMPTY = {spec(nf, mi, "self.current_len == 0"), spec(nf, mi, "not self.current_len"), spec(nf, mi, "len(self) == 0"), spec(nf, mi, "self.current_len < 1"), "not(self.current_len)"}
     for acfg, an, s, n in alloc_ctx:
-        g = [t for b, lab in cfg.control_deps(n.id) if cfg.nodes[b].kind == "test" for t, v in cfg._lits(cfg.nodes[b].ast.test, lab, b) if v]
+        g = guard_literals(nf, cfg, mi, n.id)
         v = nf.poly(s.value, Scope(None, mi, {}, site), None).canon()
-        ok = "self.current_len == 0" in g and v == "empty((self.buffer_size) + v.shape, dtype=self.buffer[k].dtype)"
-        ck.ob("R4-allocation", site, "empty-buffer-only", ok, f"`{short(s, 90)}` under {g}", "" if ok else "allocation must happen only while the buffer is empty, with buffer_size rows of the value's shape and the configured dtype", loc(mi, s))
+        okg = any(x in EMPTY for x in g)
+        okv = v == "empty((self.buffer_size) + v.shape, dtype=self.buffer[k].dtype)"
+        why = ""
+        if not okg:
+            if any("insert_idx" in x for x in g) or not g:
+                why = f"storage is (re)allocated under {g or 'no condition'}: every wrap-around / addition discards the stored transitions"
+            else:
+                raise AnalysisError(f"{site}: allocation guard {g} not recognised")
+        elif not okv:
+            why = "allocation must create buffer_size rows of the value's shape with the configured dtype"
+        ck.ob("R4-allocation", site, "empty-buffer-only", okg and okv, f"`{short(s, 90)}` under {g}", why, loc(mi, s))
 
-    # ---- R2 / R3 sampling ------------------------------------------------------------------------------------------
+
+def _gather(ck, repo, nf):
+    """R2 / R3: one index vector for all fields, drawn from the valid prefix."""
     for cq, sampler in ((RB + "ReplayBuffer", "uniform"), (RB + "LAP", "priority"), (RB + "PrioritizedReplayBuffer", "stratified")):
         fn = _m(repo, cq, "sample_batch")
         mi = fn._module
         cfg = nf.cfg_of(fn)
         site = f"{cq}.sample_batch"
-        comps = [n for n in ast.walk(fn) if isinstance(n, ast.DictComp)]
-        ok = len(comps) == 1
-        ck.ob("R2-one-index-vector", site, "single-gather", ok, f"{len(comps)} gather comprehension(s)", "" if ok else "all fields must be gathered in one comprehension", loc(mi, fn))
-        if not ok:
+        gathers = [n for n in ast.walk(fn) if isinstance(n, ast.Subscript) and isinstance(n.value, ast.Subscript) and dotted(n.value.value) == "self.buffer" and isinstance(getattr(n, "ctx", None), ast.Load)]
+        ck.need(gathers, f"{site}: no gather `self.buffer[k][indices]` found (unrecognised idiom)")
+        idx_exprs = {ast.dump(g.slice): g.slice for g in gathers}
+        # the gather must range over all fields: inside a comprehension / loop over self.buffer
+        comps = [n for n in ast.walk(fn) if isinstance(n, (ast.DictComp, ast.ListComp, ast.GeneratorExp)) and any(g2 in list(ast.walk(n)) for g2 in gathers)]
+        def _over_buffer(it):
+            return dotted(it) == "self.buffer" or (isinstance(it, ast.Call) and isinstance(it.func, ast.Attribute) and it.func.attr in ("keys", "items") and dotted(it.func.value) == "self.buffer" and not it.args)
+        over_all = any(_over_buffer(c.generators[0].iter) for c in comps)
+        ck.need(over_all, f"{site}: the gather does not iterate over self.buffer (unrecognised idiom)")
+        one = len(idx_exprs) == 1
+        ix = next(iter(idx_exprs.values()))
+        fresh = any(isinstance(x, ast.Call) for x in ast.walk(ix))
+        key_dep = any(isinstance(x, ast.Name) and any(x.id == c.generators[0].target.id for c in comps if isinstance(c.generators[0].target, ast.Name)) for x in ast.walk(ix))
+        ok = one and not fresh and not key_dep
+        ck.ob("R2-one-index-vector", site, "same-index-for-all-fields", ok, f"fields gathered at {[short(v, 40) for v in idx_exprs.values()]}",
+              "" if ok else "every field of a batch row must be read with the same, once-drawn index vector: an index computed per field (fresh draw / field-dependent) mixes transitions", loc(mi, ix))
+        if not ok or not isinstance(ix, ast.Name):
+            if ok:
+                raise AnalysisError(f"{site}: index expression `{short(ix)}` is not a variable (unrecognised idiom)")
             continue
-        c = comps[0]
-        key, val = ast.unparse(c.key), ast.unparse(c.value)
-        g = c.generators[0]
-        idx_name = None
-        m = val
-        ok = key == g.target.id and ast.unparse(g.iter) == "self.buffer" and val.startswith("jnp.asarray(self.buffer[k][") and val.endswith("])")
-        if ok:
-            idx_name = val[len("jnp.asarray(self.buffer[k]["):-2]
-            ok = idx_name.isidentifier()
-        ck.ob("R2-one-index-vector", site, "same-index-for-all-fields", ok, f"{{{key}: {val} for {g.target.id} in {ast.unparse(g.iter)}}}", "" if ok else "every field must be read as self.buffer[k][<one index vector>] for k in self.buffer", loc(mi, c))
-        if not ok:
-            continue
-        at = cfg.node_of(c).id
-        ds = cfg.defs_of(at, idx_name)
-        ck.need(len(ds) == 1 and ds[0].kind == "assign", f"{site}: index vector has no single definition")
+        at = cfg.node_of(gathers[0]).id
+        ds = cfg.defs_of(at, ix.id)
+        ck.need(len(ds) == 1 and ds[0].kind == "assign" and isinstance(ds[0].value, ast.Call), f"{site}: index vector has no single defining call")
         src = ds[0].value
-        st = ast.unparse(src)
+        LEN = "self.current_len"
+        sc0 = Scope(None, mi, {}, site)
         if sampler == "uniform":
-            ok = st == "rng.integers(0, self.current_len, batch_size)"
-            ck.ob("R3-index-bound", site, "uniform-over-valid-prefix", ok, f"{idx_name} = {st}", "" if ok else "indices must be rng.integers(0, self.current_len, batch_size): never-written slots beyond current_len must not be returned", loc(mi, src))
-        elif sampler == "priority":
-            ok = st == "self.priority.prioritized_sampling(self.current_len, batch_size, rng)"
-            ck.ob("R3-index-bound", site, "sampler-gets-current-len", ok, f"{idx_name} = {st}", "" if ok else "the priority sampler must be restricted to the first current_len entries", loc(mi, src))
+            f = src.func
+            ck.need(isinstance(f, ast.Attribute) and f.attr in ("integers", "randint", "choice"), f"{site}: index vector drawn by `{short(src, 50)}` (unrecognised idiom)")
+            if f.attr == "choice":
+                hi, lo = arg_of(src, 0, "a"), None
+            elif len(src.args) >= 2 or any(k.arg == "high" for k in src.keywords):
+                lo, hi = arg_of(src, 0, "low"), arg_of(src, 1, "high")
+            else:
+                lo, hi = None, arg_of(src, 0, "low")
+            his = nf.poly(hi, sc0, None).canon() if hi is not None else "?"
+            los = nf.poly(lo, sc0, None).canon() if lo is not None else "0"
+            ok = his in (LEN, "len(self)") and los == "0"
+            ck.ob("R3-index-bound", site, "uniform-over-valid-prefix", ok, f"{ix.id} = {short(src, 60)}: range [{los}, {his})",
+                  "" if ok else "indices must be drawn from [0, current_len): slots beyond current_len were never written (and a positive lower bound never returns the oldest transitions)", loc(mi, src))
         else:
-            ok = st == "self.prioritized_sampling_stratified(self.current_len, batch_size, rng)"
-            ck.ob("R3-index-bound", site, "sampler-gets-current-len", ok, f"{idx_name} = {st}", "" if ok else "the stratified sampler must be restricted to the first current_len entries", loc(mi, src))
-    # the samplers slice with current_len
+            callee = repo.method(RB + "PriorityBuffer", "prioritized_sampling")[1] if sampler == "priority" else repo.method(cq, "prioritized_sampling_stratified")[1]
+            want_recv = "self.priority.prioritized_sampling" if sampler == "priority" else "self.prioritized_sampling_stratified"
+            ck.need(dotted(src.func) == want_recv, f"{site}: index vector drawn by `{short(src, 50)}` (unrecognised idiom)")
+            b = bind_call(callee, src, skip_self=True)
+            got = nf.poly(b["current_len"], sc0, None).canon() if "current_len" in b else "?"
+            ok = got in (LEN, "len(self)")
+            ck.ob("R3-index-bound", site, "sampler-gets-current-len", ok, f"{ix.id} = {short(src, 70)}: current_len <- {got}", "" if ok else "the priority sampler must be restricted to the first current_len entries", loc(mi, src))
+    # the samplers restrict the priorities to [:current_len]: every occurrence of the stored priorities in the sampled distribution is sliced
+    from ..sympath import enumerate_paths, PathEval
     for cq, meth, field in ((RB + "PriorityBuffer", "prioritized_sampling", "self.priority"), (RB + "PrioritizedReplayBuffer", "prioritized_sampling_stratified", "self.priority.priority")):
         fn = _m(repo, cq, meth)
+        mi = fn._module
         cfg = nf.cfg_of(fn)
-        ds = [n for n in cfg.nodes if n.kind == "stmt" and isinstance(n.ast, ast.Assign) and dotted(n.ast.targets[0]) == "priority" and not cfg.control_deps(n.id)]
-        ok = len(ds) == 1 and ast.unparse(ds[0].ast.value) == f"{field}[:current_len]"
-        ck.ob("R3-index-bound", f"{cq}.{meth}", "priorities-sliced-to-length", ok, f"priority = {ast.unparse(ds[0].ast.value) if ds else None}", "" if ok else "only the first current_len priorities may take part in sampling", loc(fn._module, fn))
-        # searchsorted result is what is returned
-        rets = [n for n in ast.walk(fn) if isinstance(n, ast.Return)]
-        ok = len(rets) == 1
-        ck.ob("R3-index-bound", f"{cq}.{meth}", "single-return", ok, f"{len(rets)} return(s)", "" if ok else "", loc(fn._module, fn))
+        rets = [n for n in cfg.nodes if n.kind == "stmt" and isinstance(n.ast, ast.Return)]
+        ck.ob("R3-index-bound", f"{cq}.{meth}", "single-return", len(rets) == 1, f"{len(rets)} return(s)", "" if len(rets) == 1 else "the sampler must have one exit", loc(mi, fn))
+        if len(rets) != 1:
+            continue
+        env = {p: Poly.atom(p, {p}, {p}) for p in positional_params(fn)}
+        bad, seen = [], 0
+        for p in enumerate_paths(cfg, cfg.entry, {rets[0].id}):
+            pe = PathEval(nf, cfg, mi, f"{cq}.{meth}", env).run(p[:-1])
+            txt = pe.ev(rets[0].ast.value).canon()
+            if txt.startswith("self.") and txt in pe.store:
+                txt = pe.store[txt].canon()
+            txt2 = txt
+            for k, v in pe.store.items():
+                if k in txt2:
+                    txt2 = txt2.replace(k, v.canon())
+            seen += txt2.count(field + "[")
+            rest = txt2.replace(field + "[:current_len]", "")
+            if field in rest.replace(field + ".", "§.") if field == "self.priority" else field in rest:
+                bad.append(txt2[:120])
+        ok = not bad and seen > 0
+        if seen == 0 and not bad:
+            raise AnalysisError(f"{cq}.{meth}: stored priorities do not occur in the returned indices (unrecognised idiom)")
+        ck.ob("R3-index-bound", f"{cq}.{meth}", "priorities-sliced-to-length", ok, f"every use of {field} in the sampled distribution is {field}[:current_len]", "" if ok else f"an unsliced use of the priority store takes part in sampling ({bad[:1]}): never-written slots can be drawn", loc(mi, fn))
 
-    # ---- R6 length ----------------------------------------------------------------------------------------------------------
+
+def _lengths(ck, repo, nf):
     for cq in (RB + "ReplayBuffer", RB + "SubtrajectoryReplayBuffer"):
         fn = _m(repo, cq, "__len__")
-        rets = [n for n in ast.walk(fn) if isinstance(n, ast.Return)]
-        ok = len(rets) == 1 and ast.unparse(rets[0].value) == "self.current_len"
-        ck.ob("R6-length", f"{cq}.__len__", "returns-current-len", ok, f"return {ast.unparse(rets[0].value) if rets else None}", "" if ok else "length must be the number of stored transitions", loc(fn._module, fn))
-    # subclasses must not override the ring methods inconsistently
+        mi = fn._module
+        cfg = nf.cfg_of(fn)
+        rets = [n for n in cfg.nodes if n.kind == "stmt" and isinstance(n.ast, ast.Return)]
+        vals = {nf.poly(r.ast.value, Scope(cfg, mi, {}, cq), r.id).canon() for r in rets}
+        ok = vals == {"self.current_len"}
+        ck.ob("R6-length", f"{cq}.__len__", "returns-current-len", ok, f"return {sorted(vals)}", "" if ok else "length must be the number of stored transitions", loc(mi, fn))
     for cq in (RB + "LAP", RB + "PrioritizedReplayBuffer"):
-        for meth in ("__len__",):
-            ck.ob("R6-length", cq, f"inherits:{meth}", repo.method(cq, meth, inherited=False) is None, f"{cq.rsplit('.', 1)[1]} inherits {meth}", "" if repo.method(cq, meth, inherited=False) is None else "overrides the length", cq)
+        own = repo.method(cq, "__len__", inherited=False)
+        if own is not None:
+            fn = own[1]
+            vals = {nf.poly(r.value, Scope(None, repo.cls(cq)._module, {}, cq), None).canon() for r in ast.walk(fn) if isinstance(r, ast.Return)}
+            ok = vals <= {"self.current_len", "super().__len__()"}
+            ck.ob("R6-length", cq, "inherits:__len__", ok, f"{cq.rsplit('.', 1)[1]}.__len__ returns {sorted(vals)}", "" if ok else "overrides the length with something else than the number of stored transitions", cq)
+        else:
+            ck.ob("R6-length", cq, "inherits:__len__", True, f"{cq.rsplit('.', 1)[1]} inherits __len__", "", cq)
+    # LAP adds through the base ring: exactly one super().add_sample(**sample) on every path, no ring state written here
     fn = _m(repo, RB + "LAP", "add_sample")
-    calls = [ast.unparse(s) for s in fn.body if not (isinstance(s, ast.Expr) and isinstance(s.value, ast.Constant))]
-    ok = calls == ["self.priority.initialize_priority(self.insert_idx)", "super().add_sample(**sample)"]
-    ck.ob("R1-ring-law", RB + "LAP.add_sample", "delegates-to-ring", ok, " ; ".join(calls), "" if ok else "LAP must add through the base ring (after initialising the priority of the slot being written)", loc(fn._module, fn))
+    mi = fn._module
+    cfg = nf.cfg_of(fn)
+    kwarg = fn.args.kwarg.arg if fn.args.kwarg else None
+    sup = stmt_calls(cfg, lambda c: ast.unparse(c.func) == "super().add_sample")
+    fwd = all(len(c.args) == 0 and len(c.keywords) == 1 and c.keywords[0].arg is None and dotted(c.keywords[0].value) == kwarg for _, c in sup)
+    once = on_every_path_once(cfg, [n.id for n, _ in sup])
+    ring_writes = [short(n.ast, 50) for n in cfg.nodes if n.kind == "stmt" and isinstance(n.ast, (ast.Assign, ast.AugAssign)) and any(
+        (dotted(t) in ("self.insert_idx", "self.current_len")) or (isinstance(t, ast.Subscript) and (dotted(t.value) or "").startswith("self.buffer")) or (isinstance(t, ast.Subscript) and isinstance(t.value, ast.Subscript) and dotted(t.value.value) == "self.buffer")
+        for t in (n.ast.targets if isinstance(n.ast, ast.Assign) else [n.ast.target]))]
+    ok = once and fwd and not ring_writes
+    why = ""
+    if not once:
+        why = "the transition must be added to the base ring exactly once on every path"
+    elif not fwd:
+        why = "the transition fields must be forwarded unchanged (**sample)"
+    elif ring_writes:
+        why = f"LAP.add_sample writes ring state itself: {ring_writes}"
+    ck.ob("R1-ring-law", RB + "LAP.add_sample", "delegates-to-ring", ok, f"{len(sup)} super().add_sample call(s); ring writes {ring_writes}", why, loc(mi, fn))
 
-    # ---- R5 multi-task ----------------------------------------------------------------------------------------------------------
+
+def _multitask(ck, repo, nf):
     cq = RB + "MultiTaskReplayBuffer"
     fn = _m(repo, cq, "add_sample")
-    body = [ast.unparse(s) for s in fn.body if not (isinstance(s, ast.Expr) and isinstance(s.value, ast.Constant))]
-    ok = body == ["self.buffers[self.selected_task].add_sample(*args, **kwargs)", "self.active_buffers.add(self.selected_task)"]
-    ck.ob("R5-task-routing", f"{cq}.add_sample", "routes-to-selected-task", ok, " ; ".join(body), "" if ok else "additions must go to buffers[selected_task] only and mark exactly that task active", loc(fn._module, fn))
+    mi = fn._module
+    cfg = nf.cfg_of(fn)
+    sc0 = Scope(None, mi, {}, cq)
+    SEL = "self.selected_task"
+    adds = stmt_calls(cfg, lambda c: isinstance(c.func, ast.Attribute) and c.func.attr == "add_sample")
+    ck.need(adds, f"{cq}.add_sample: no member add_sample call (anchor vanished)")
+    tgt_ok, fwd_ok = True, True
+    for n, c in adds:
+        ok_r = nf.poly(c.func.value, Scope(cfg, mi, {}, cq), n.id).canon() == f"self.buffers[{SEL}]"
+        tgt_ok &= ok_r
+        va, kw = fn.args.vararg.arg if fn.args.vararg else None, fn.args.kwarg.arg if fn.args.kwarg else None
+        fwd_ok &= [ast.unparse(a) for a in c.args] == ([f"*{va}"] if va else []) and [(k.arg, dotted(k.value)) for k in c.keywords] == ([(None, kw)] if kw else [])
+    once = on_every_path_once(cfg, [n.id for n, _ in adds])
+    ok = tgt_ok and fwd_ok and once
+    why = "" if ok else ("additions must go to buffers[selected_task] only" if not tgt_ok else "the transition must be forwarded unchanged" if not fwd_ok else "exactly one member buffer receives the transition on every path")
+    ck.ob("R5-task-routing", f"{cq}.add_sample", "routes-to-selected-task", ok, "; ".join(short(c, 70) for _, c in adds), why, loc(mi, fn))
+    marks = stmt_calls(cfg, lambda c: isinstance(c.func, ast.Attribute) and dotted(c.func.value) == "self.active_buffers")
+    okm = len(marks) == 1 and marks[0][1].func.attr == "add" and len(marks[0][1].args) == 1 and nf.poly(marks[0][1].args[0], Scope(cfg, mi, {}, cq), marks[0][0].id).canon() == SEL and on_every_path_once(cfg, [marks[0][0].id])
+    ck.ob("R5-task-routing", f"{cq}.add_sample", "marks-selected-task-active", okm, "; ".join(short(c, 60) for _, c in marks), "" if okm else "exactly the task that received the transition becomes active (anything else lets sample_batch draw a task without data, or never draw one that has data)", loc(mi, fn))
     # who may change the active set: only add_sample (and __init__)
     mcls = repo.cls(cq)
     for meth in mcls.body:
         if isinstance(meth, ast.FunctionDef) and meth.name not in ("add_sample", "__init__"):
             for x in ast.walk(meth):
-                hit = (isinstance(x, ast.Call) and isinstance(x.func, ast.Attribute) and dotted(x.func.value) == "self.active_buffers" and x.func.attr in ("add", "update", "discard", "remove", "clear")) or \
+                hit = (isinstance(x, ast.Call) and isinstance(x.func, ast.Attribute) and dotted(x.func.value) == "self.active_buffers" and x.func.attr in ("add", "update", "discard", "remove", "clear", "pop", "difference_update", "intersection_update")) or \
                       (isinstance(x, (ast.Assign, ast.AugAssign)) and dotted(x.targets[0] if isinstance(x, ast.Assign) else x.target) == "self.active_buffers")
                 if hit:
                     ck.ob("R5-task-routing", f"{cq}.{meth.name}", "active-set-owner", False, short(x, 60), "a task becomes active only when a transition is added to it: marking it elsewhere lets sample_batch draw a task without data", loc(mcls._module, x))
     ck.ob("R5-task-routing", cq, "active-set-owner", True, "active_buffers is changed only by add_sample", "", loc(mcls._module, mcls))
+    # select_task validates
     fn = _m(repo, cq, "select_task")
     cfg = nf.cfg_of(fn)
-    sets = [n for n in cfg.nodes if n.kind == "stmt" and isinstance(n.ast, ast.Assign) and dotted(n.ast.targets[0]) == "self.selected_task"]
-    ok = len(sets) == 1 and ast.unparse(sets[0].ast.value) == "task_id"
-    g = [t for b, lab in cfg.control_deps(sets[0].id) for t, v in cfg._lits(cfg.nodes[b].ast.test, lab, b) if v] if sets else []
-    ok = ok and g == ["0 <= task_id < len(self.buffers)"]
-    ck.ob("R5-task-routing", f"{cq}.select_task", "validated", ok, f"selected_task = task_id under {g}", "" if ok else "a task id must be stored only if 0 <= task_id < n_tasks", loc(fn._module, fn))
+    tid = [p for p in positional_params(fn) if p != "self"][0]
+    sets = [n for n in cfg.nodes if n.kind == "stmt" and isinstance(n.ast, ast.Assign) and dotted(n.ast.targets[0]) == SEL]
+    ck.need(len(sets) >= 1, f"{cq}.select_task: no assignment of selected_task")
+    for st in sets:
+        g = set(guard_literals(nf, cfg, mi, st.id))
+        val = nf.poly(st.ast.value, Scope(cfg, mi, {}, cq), st.id).canon()
+        lower = {spec(nf, mi, f"0 <= {tid}"), spec(nf, mi, f"-1 < {tid}")}
+        upper = {spec(nf, mi, f"{tid} < len(self.buffers)"), spec(nf, mi, f"{tid} <= len(self.buffers) - 1")}
+        rng_form = spec(nf, mi, f"{tid} in range(len(self.buffers))")
+        ok = val == tid and ((g & lower and g & upper) or rng_form in g)
+        ck.ob("R5-task-routing", f"{cq}.select_task", "validated", ok, f"selected_task = {val} under {sorted(g)}", "" if ok else "a task id must be stored only if 0 <= task_id < n_tasks (otherwise additions go to the wrong task via negative indexing, or fail later)", loc(mi, st.ast))
+    # sample_batch: one member among the active ones
     fn = _m(repo, cq, "sample_batch")
-    txt = "\n".join(ast.unparse(s) for s in fn.body)
-    ok = "self.sampled_task_idx = rng.choice(list(self.active_buffers), size=1)[0]" in txt and "return self.buffers[self.sampled_task_idx].sample_batch(*args, rng=rng, **kwargs)" in txt
-    ck.ob("R5-task-routing", f"{cq}.sample_batch", "single-active-task", ok, "task ~ active_buffers; batch from buffers[task]", "" if ok else "a batch must come from one task drawn among the tasks that already have data", loc(fn._module, fn))
-    fn = _m(repo, cq, "update_priority")
-    body = [ast.unparse(s) for s in fn.body if not (isinstance(s, ast.Expr) and isinstance(s.value, ast.Constant))]
-    ok = body == ["self.buffers[self.sampled_task_idx].update_priority(priority)"]
-    ck.ob("R5-task-routing", f"{cq}.update_priority", "to-sampled-task", ok, " ; ".join(body), "" if ok else "priorities must be written to the task the last batch was drawn from", loc(fn._module, fn))
+    cfg = nf.cfg_of(fn)
+    samples = stmt_calls(cfg, lambda c: isinstance(c.func, ast.Attribute) and c.func.attr == "sample_batch" and isinstance(c.func.value, ast.Subscript) and dotted(c.func.value.value) == "self.buffers")
+    ck.need(len(samples) == 1, f"{cq}.sample_batch: expected one member sample_batch call")
+    n, c = samples[0]
+    ixe = c.func.value.slice
+    # the index value: through attribute store / local
+    src = None
+    if isinstance(ixe, ast.Attribute) and dotted(ixe.value) == "self":
+        w = [m for m in cfg.nodes if m.kind == "stmt" and isinstance(m.ast, ast.Assign) and any(dotted(t) == dotted(ixe) for t in m.ast.targets)]
+        if len(w) == 1 and cfg.dominates(w[0].id, n.id):
+            src = (w[0].ast.value, w[0].id)
+    elif isinstance(ixe, ast.Name):
+        ds = cfg.defs_of(n.id, ixe.id)
+        if len(ds) == 1 and ds[0].kind == "assign":
+            src = (ds[0].value, ds[0].node)
+    ck.need(src is not None, f"{cq}.sample_batch: the sampled member index `{short(ixe)}` has no single dominating definition (unrecognised idiom)")
+    choice = [x for x in ast.walk(src[0]) if isinstance(x, ast.Call) and isinstance(x.func, ast.Attribute) and x.func.attr in ("choice", "integers", "randint")]
+    ck.need(len(choice) == 1, f"{cq}.sample_batch: member index `{short(src[0], 60)}` is not one random draw (unrecognised idiom)")
+    pop = nf.poly(choice[0].args[0], Scope(cfg, mi, {}, cq), src[1]).canon() if choice[0].args else "?"
+    from_active = "self.active_buffers" in pop and "self.buffers" not in pop.replace("self.active_buffers", "")
+    from_all = "self.buffers" in pop.replace("self.active_buffers", "") or "n_tasks" in pop
+    if not from_active and not from_all:
+        raise AnalysisError(f"{cq}.sample_batch: population `{pop}` of the member draw not recognised")
+    ck.ob("R5-task-routing", f"{cq}.sample_batch", "single-active-task", from_active, f"member ~ {short(choice[0], 70)}; batch from buffers[{short(ixe)}]",
+          "" if from_active else "the member must be drawn among the tasks that already have data (active_buffers), not among all tasks", loc(mi, choice[0]))
+    isret = isinstance(n.ast, ast.Return)
+    if not isret:
+        raise AnalysisError(f"{cq}.sample_batch: member batch is post-processed before it is returned (unrecognised idiom)")
+    ck.ob("R5-task-routing", f"{cq}.sample_batch", "returns-member-batch", True, f"return {short(c, 70)}", "", loc(mi, c))
+    # __len__ : total over members
     fn = _m(repo, cq, "__len__")
-    rets = [n for n in ast.walk(fn) if isinstance(n, ast.Return)]
-    ok = len(rets) == 1 and ast.unparse(rets[0].value) == "sum((len(buffer) for buffer in self.buffers))"
-    ck.ob("R6-length", f"{cq}.__len__", "sum-over-tasks", ok, f"return {ast.unparse(rets[0].value) if rets else None}", "" if ok else "length must be the total over all task buffers", loc(fn._module, fn))
+    rets = [r for r in ast.walk(fn) if isinstance(r, ast.Return)]
+    ck.need(len(rets) == 1, f"{cq}.__len__: expected one return")
+    rv = rets[0].value
+    tot = False
+    if isinstance(rv, ast.Call) and dotted(rv.func) == "sum" and rv.args:
+        a0 = rv.args[0]
+        if isinstance(a0, (ast.GeneratorExp, ast.ListComp)) and len(a0.generators) == 1 and dotted(a0.generators[0].iter) == "self.buffers" and not a0.generators[0].ifs and isinstance(a0.generators[0].target, ast.Name):
+            t = a0.generators[0].target.id
+            tot = ast.unparse(a0.elt) in (f"len({t})", f"{t}.current_len", f"{t}.__len__()")
+        if isinstance(a0, ast.Call) and dotted(a0.func) == "map" and len(a0.args) == 2 and dotted(a0.args[0]) == "len" and dotted(a0.args[1]) == "self.buffers":
+            tot = True
+    if not tot and "self.buffers[" not in ast.unparse(rv) and "selected_task" not in ast.unparse(rv):
+        raise AnalysisError(f"{cq}.__len__: `{short(rv, 60)}` not recognised as the total over the member buffers")
+    ck.ob("R6-length", f"{cq}.__len__", "sum-over-tasks", tot, f"return {short(rv, 70)}", "" if tot else "length must be the total over all task buffers, not that of one member", loc(fn._module, fn))
+    # __init__: independent member buffers, nothing active
     fn = _m(repo, cq, "__init__")
-    txt = "\n".join(ast.unparse(s) for s in fn.body)
-    ok = "self.buffers.append(copy.deepcopy(replay_buffer))" in txt and "self.active_buffers = set()" in txt
-    ck.ob("R5-task-routing", f"{cq}.__init__", "independent-buffers", ok, "per-task deep copies; no task active initially", "" if ok else "each task needs its own buffer object and no task is active before data is added", loc(fn._module, fn))
+    cfg = nf.cfg_of(fn)
+    rb = [p for p in positional_params(fn) if p != "self"][0]
+    apps = stmt_calls(cfg, lambda c: isinstance(c.func, ast.Attribute) and dotted(c.func.value) == "self.buffers" and c.func.attr in ("append", "extend", "insert"))
+    inits = [m for m in cfg.nodes if m.kind == "stmt" and isinstance(m.ast, ast.Assign) and dotted(m.ast.targets[0]) == "self.buffers"]
+    aliased = []
+    for m in inits:
+        v = m.ast.value
+        if isinstance(v, ast.BinOp) and isinstance(v.op, ast.Mult):
+            aliased.append(short(m.ast, 60))
+        elif isinstance(v, ast.List):
+            if sum(1 for e in v.elts if dotted(e) == rb) > 1:
+                aliased.append(short(m.ast, 60))
+        elif isinstance(v, ast.ListComp):
+            if dotted(v.elt) == rb:
+                aliased.append(short(m.ast, 60))
+            elif not (isinstance(v.elt, ast.Call) and dotted(v.elt.func) in ("copy.deepcopy", "deepcopy")):
+                raise AnalysisError(f"{cq}.__init__: member construction `{short(v, 60)}` not recognised")
+        else:
+            raise AnalysisError(f"{cq}.__init__: member construction `{short(v, 60)}` not recognised")
+    for _, c in apps:
+        a = c.args[-1] if c.args else None
+        if dotted(a) == rb:
+            aliased.append(short(c, 60))
+        elif not (isinstance(a, ast.Call) and dotted(a.func) in ("copy.deepcopy", "deepcopy")):
+            raise AnalysisError(f"{cq}.__init__: member construction `{short(c, 60)}` not recognised")
+    act = [m for m in cfg.nodes if m.kind == "stmt" and isinstance(m.ast, ast.Assign) and dotted(m.ast.targets[0]) == "self.active_buffers"]
+    empty = len(act) == 1 and ast.unparse(act[0].ast.value) in ("set()", "set([])", "set(())")
+    if len(act) == 1 and not empty and not isinstance(act[0].ast.value, (ast.Call, ast.Set, ast.SetComp)):
+        raise AnalysisError(f"{cq}.__init__: initial active set `{short(act[0].ast.value)}` not recognised")
+    ok = not aliased and empty
+    ck.ob("R5-task-routing", f"{cq}.__init__", "independent-buffers", ok, f"members: first = {rb}, others deep copies; active_buffers initially {short(act[0].ast.value) if act else None}",
+          "" if ok else (f"{aliased} shares one buffer object between tasks: additions to one task appear in the others" if aliased else "no task may be active before data has been added to it"), loc(fn._module, fn))
+
+
+def run(ck, repo: Repo, tier: str):
+    nf = NF(repo, inline_depth=1, inline_calls=False)
+    for group in (_ring, _gather, _lengths, _multitask):
+        ck.guard(group, ck, repo, nf)
 
 
 _F = "rl_blox/blox/replay_buffer.py"
 _RING = "        for k, v in sample.items():\n            self.buffer[k][self.insert_idx] = v\n        self.insert_idx = (self.insert_idx + 1) % self.buffer_size\n        self.current_len = min(self.current_len + 1, self.buffer_size)\n\n    def sample_batch(\n        self, batch_size: int, rng: np.random.Generator\n    ) -> tuple[jnp.ndarray]:"
 MUTANTS = [
+    {"id": "c02-integers-low-one", "file": _F, "rule": "R3", "find": "        indices = rng.integers(0, self.current_len, batch_size)", "replace": "        indices = rng.integers(1, self.current_len, batch_size)"},
+    {"id": "c02-mt-shared-buffers", "file": _F, "rule": "R5", "find": "            self.buffers.append(copy.deepcopy(replay_buffer))", "replace": "            self.buffers.append(replay_buffer)"},
+    {"id": "c02-mt-add-to-first", "file": _F, "rule": "R5", "find": "        self.buffers[self.selected_task].add_sample(*args, **kwargs)", "replace": "        self.buffers[0].add_sample(*args, **kwargs)"},
+    {"id": "c02-mt-len-selected", "file": _F, "rule": "R6", "find": "        return sum(len(buffer) for buffer in self.buffers)", "replace": "        return len(self.buffers[self.selected_task])"},
+    {"id": "c02-lap-add-twice", "file": _F, "rule": "R1", "find": "        self.priority.initialize_priority(self.insert_idx)\n        super().add_sample(**sample)", "replace": "        self.priority.initialize_priority(self.insert_idx)\n        super().add_sample(**sample)\n        if self.current_len == 1:\n            super().add_sample(**sample)"},
     {"id": "c02-mt-active-on-select", "file": _F, "rule": "R5", "find": "        if 0 <= task_id < len(self.buffers):\n            self.selected_task = task_id\n", "replace": "        if 0 <= task_id < len(self.buffers):\n            self.selected_task = task_id\n            self.active_buffers.add(task_id)\n"},
     {"id": "c02-store-by-position", "file": _F, "rule": "R1", "nth": 0, "find": "        for k, v in sample.items():\n            self.buffer[k][self.insert_idx] = v\n        self.insert_idx", "replace": "        for storage, v in zip(self.buffer.values(), sample.values(), strict=True):\n            storage[self.insert_idx] = v\n        self.insert_idx"},
     {"id": "c02-advance-before-store", "file": _F, "rule": "R1", "find": _RING, "replace": _RING.replace("        for k, v in sample.items():\n            self.buffer[k][self.insert_idx] = v\n        self.insert_idx = (self.insert_idx + 1) % self.buffer_size\n", "        self.insert_idx = (self.insert_idx + 1) % self.buffer_size\n        for k, v in sample.items():\n            self.buffer[k][self.insert_idx] = v\n")},
@@ -234,11 +434,18 @@ MUTANTS = [
     {"id": "c02-mt-all-active", "file": _F, "rule": "R5", "find": "        self.active_buffers.add(self.selected_task)", "replace": "        self.active_buffers.update(range(len(self.buffers)))"},
     {"id": "c02-mt-no-validation", "file": _F, "rule": "R5", "find": "        if 0 <= task_id < len(self.buffers):\n            self.selected_task = task_id", "replace": "        if task_id < len(self.buffers):\n            self.selected_task = task_id"},
     {"id": "c02-mt-sample-any", "file": _F, "rule": "R5", "find": "        self.sampled_task_idx = rng.choice(list(self.active_buffers), size=1)[0]", "replace": "        self.sampled_task_idx = rng.choice(len(self.buffers), size=1)[0]"},
-    {"id": "c02-mt-priority-selected", "file": _F, "rule": "R5", "find": "        self.buffers[self.sampled_task_idx].update_priority(priority)", "replace": "        self.buffers[self.selected_task].update_priority(priority)"},
     {"id": "c02-len-capacity", "file": _F, "rule": "R6", "nth": 0, "find": "        \"\"\"Return current number of stored transitions in the replay buffer.\"\"\"\n        return self.current_len", "replace": "        \"\"\"Return current number of stored transitions in the replay buffer.\"\"\"\n        return self.buffer_size"},
 ]
 _ALLOC = "        if self.current_len == 0:\n            for k, v in sample.items():\n                assert k in self.buffer, f\"{k} not in {self.buffer.keys()}\"\n                self.buffer[k] = np.empty(\n                    (self.buffer_size,) + np.asarray(v).shape,\n                    dtype=self.buffer[k].dtype,\n                )\n        for k, v in sample.items():\n            self.buffer[k][self.insert_idx] = v\n        self.insert_idx = (self.insert_idx + 1) % self.buffer_size\n        self.current_len = min(self.current_len + 1, self.buffer_size)\n\n    def sample_batch(\n        self, batch_size: int, rng: np.random.Generator\n    ) -> tuple[jnp.ndarray]:"
 BENIGN = [
+    {"id": "c02-b-lap-init-after", "file": _F, "find": "        self.priority.initialize_priority(self.insert_idx)\n        super().add_sample(**sample)", "replace": "        slot = self.insert_idx\n        super().add_sample(**sample)\n        self.priority.initialize_priority(slot)"},
+    {"id": "c02-b-integers-keywords", "file": _F, "find": "        indices = rng.integers(0, self.current_len, batch_size)", "replace": "        indices = rng.integers(low=0, high=len(self), size=batch_size)"},
+    {"id": "c02-b-integers-high-only", "file": _F, "find": "        indices = rng.integers(0, self.current_len, batch_size)", "replace": "        indices = rng.integers(self.current_len, size=batch_size)"},
+    {"id": "c02-b-len-local", "file": _F, "nth": 0, "find": "        \"\"\"Return current number of stored transitions in the replay buffer.\"\"\"\n        return self.current_len", "replace": "        n = self.current_len\n        return n"},
+    {"id": "c02-b-select-raise-first", "file": _F, "find": "        if 0 <= task_id < len(self.buffers):\n            self.selected_task = task_id\n        else:\n            raise ValueError(", "replace": "        if 0 <= task_id < len(self.buffers):\n            pass\n        else:\n            raise ValueError(\"invalid task\")\n        self.selected_task = task_id\n        if False:\n            raise ValueError("},
+    {"id": "c02-b-mt-add-alias", "file": _F, "find": "        self.buffers[self.selected_task].add_sample(*args, **kwargs)\n        self.active_buffers.add(self.selected_task)", "replace": "        task = self.selected_task\n        buffer = self.buffers[task]\n        buffer.add_sample(*args, **kwargs)\n        self.active_buffers.add(task)"},
+    {"id": "c02-b-mt-len-map", "file": _F, "find": "        return sum(len(buffer) for buffer in self.buffers)", "replace": "        return sum(map(len, self.buffers))"},
+    {"id": "c02-b-gather-local-array", "file": _F, "nth": 0, "find": "            **{k: jnp.asarray(self.buffer[k][indices]) for k in self.buffer}", "replace": "            **{name: jnp.asarray(self.buffer[name][indices]) for name in self.buffer.keys()}"},
     {"id": "c02-b-alloc-helper", "file": _F, "find": _ALLOC, "replace": "        if self.current_len == 0:\n            self._allocate(sample)\n        for k, v in sample.items():\n            self.buffer[k][self.insert_idx] = v\n        self.insert_idx = (self.insert_idx + 1) % self.buffer_size\n        self.current_len = min(self.current_len + 1, self.buffer_size)\n\n    def _allocate(self, sample):\n        for k, v in sample.items():\n            assert k in self.buffer\n            self.buffer[k] = np.empty(\n                (self.buffer_size,) + np.asarray(v).shape,\n                dtype=self.buffer[k].dtype,\n            )\n\n    def sample_batch(\n        self, batch_size: int, rng: np.random.Generator\n    ) -> tuple[jnp.ndarray]:"},
     {"id": "c02-b-len-first", "file": _F, "find": _RING, "replace": _RING.replace("        self.insert_idx = (self.insert_idx + 1) % self.buffer_size\n        self.current_len = min(self.current_len + 1, self.buffer_size)", "        self.current_len = min(self.current_len + 1, self.buffer_size)\n        self.insert_idx = (self.insert_idx + 1) % self.buffer_size")},
     {"id": "c02-b-advance-commuted", "file": _F, "find": _RING, "replace": _RING.replace("(self.insert_idx + 1) % self.buffer_size", "(1 + self.insert_idx) % self.buffer_size")},
